@@ -51,18 +51,43 @@ CBMC_FLAGS = ["--no-malloc-may-fail", "--no-undefined-shift-check", "--no-signed
 def codegen(features, harnesses):
     """Compile /repo + harness crate with Kani and produce one linked goto binary per harness.
     Returns ({harness: (goto_path, unwind)}, error_text_or_None)."""
-    import glob
+    import glob, fcntl
     ws = workspace("kani", features)
+    # concurrent checks share the workspace: serialise codegen, keep per-run goto binaries
+    lock = open(os.path.join(ws, ".verif.lock"), "w")
+    fcntl.flock(lock, fcntl.LOCK_EX)
+    try:
+        return _codegen_locked(ws, features, harnesses)
+    finally:
+        fcntl.flock(lock, fcntl.LOCK_UN)
+        lock.close()
+
+def _codegen_locked(ws, features, harnesses):
+    import glob
+    rundir = os.path.join(ws, "goto", "%d-%s" % (os.getpid(), key_of(*harnesses, str(time.time()))))
+    os.makedirs(rundir, exist_ok=True)
     cmd = ["cargo", "kani", "--features", features, "--only-codegen", "--exact", "--no-assertion-reach-checks"]
     for h in harnesses:
         cmd += ["--harness", _norm(h)]
     rc, out, secs = sh(cmd, cwd=ws, timeout=3600)
     if rc != 0:
         return {}, "kani codegen failed (rc=%s):\n%s" % (rc, "\n".join(l for l in out.splitlines() if "register_tool" not in l and "unstable" not in l)[-6000:])
+    # one output directory per harness selection (the selection is part of the rustc arguments):
+    # take the metadata whose harness list is exactly the requested set (newest if several)
     metas = sorted(glob.glob(os.path.join(ws, "target/kani/*/debug/build/vh/*/out/*.kani-metadata.json")), key=os.path.getmtime)
-    if not metas:
-        return {}, "no kani metadata produced"
-    meta = json.load(open(metas[-1]))
+    meta = None
+    want = set(harnesses)
+    for mf in reversed(metas):
+        try:
+            m = json.load(open(mf))
+        except Exception:
+            continue
+        names = {ph["pretty_name"].replace("proofs::", "") for ph in m.get("proof_harnesses", [])}
+        if names == want:
+            meta = m
+            break
+    if meta is None:
+        return {}, "no kani metadata for the requested harness set %s" % sorted(want)
     r = {}
     for ph in meta.get("proof_harnesses", []):
         name = ph["pretty_name"].replace("proofs::", "")
@@ -70,7 +95,7 @@ def codegen(features, harnesses):
             continue
         sym = ph["goto_file"]
         mangled = ph["mangled_name"]
-        goto = sym.replace(".symtab.out", ".verif.goto")
+        goto = os.path.join(rundir, name + ".goto")
         steps = [["goto-cc", sym, KANI_LIB_C, "-o", goto],
                  ["goto-cc", goto, "--function", mangled, "-o", goto],
                  ["goto-instrument", "--drop-unused-functions", goto, goto],
@@ -175,13 +200,43 @@ def run_cbmc(goto, unwind, timeout_s, mem_gb=24, unwindset=None):
                 if sub in func:
                     sel.append("%s:%d" % (lid, n))
                     break
+        # recursion bounds: keyed by the function symbol itself
+        rc, out, _ = sh(["cbmc", "--list-goto-functions", goto], timeout=300)
+        for line in out.splitlines():
+            m = re.match(r"^(.*\S)\s+/\* (\S+) \*/$", line)
+            if not m:
+                continue
+            for sub, n in unwindset.items():
+                if sub.startswith("rec:") and sub[4:] in m.group(1):
+                    sel.append("%s:%d" % (m.group(2), n))
+                    break
         if sel:
             cmd += ["--unwindset", ",".join(sel)]
     cmd += [goto]
     rc, out, secs = sh(cmd, timeout=timeout_s, mem_gb=mem_gb)
     return rc, out, secs
 
-def run_kani(features, harnesses, timeout_s, jobs=None, unwindsets=None):
+import threading
+class _MemBudget:
+    """CBMC runs are memory bound: admit jobs while the sum of their limits fits the budget."""
+    def __init__(self, total):
+        self.total = total
+        self.used = 0
+        self.cv = threading.Condition()
+    def acquire(self, n):
+        n = min(n, self.total)
+        with self.cv:
+            while self.used + n > self.total:
+                self.cv.wait()
+            self.used += n
+        return n
+    def release(self, n):
+        with self.cv:
+            self.used -= n
+            self.cv.notify_all()
+_BUDGET = _MemBudget(int(os.environ.get("VERIF_MEM_GB", "48")))
+
+def run_kani(features, harnesses, timeout_s, jobs=None, unwindsets=None, mems=None):
     """Decide each harness with CBMC.  Returns (dict harness -> result dict, raw text)."""
     from concurrent.futures import ThreadPoolExecutor
     harnesses = list(harnesses)
@@ -193,11 +248,16 @@ def run_kani(features, harnesses, timeout_s, jobs=None, unwindsets=None):
         for h in harnesses:
             res[h] = {"status": "error", "detail": err, "wall_s": cg}
         return res, err
-    jobs = jobs or min(len(harnesses), int(os.environ.get("VERIF_JOBS", "8")))
+    jobs = jobs or min(len(harnesses), int(os.environ.get("VERIF_JOBS", "12")))
     tmo = timeout_s if isinstance(timeout_s, dict) else {h: timeout_s for h in harnesses}
     def one(h):
         goto, unwind = gotos[h]
-        rc, out, secs = run_cbmc(goto, unwind, tmo[h], unwindset=(unwindsets or {}).get(h))
+        want = (mems or {}).get(h) or 8
+        got = _BUDGET.acquire(want)
+        try:
+            rc, out, secs = run_cbmc(goto, unwind, tmo[h], mem_gb=got, unwindset=(unwindsets or {}).get(h))
+        finally:
+            _BUDGET.release(got)
         return h, rc, out, secs
     raw = []
     with ThreadPoolExecutor(max_workers=jobs) as ex:
@@ -205,8 +265,10 @@ def run_kani(features, harnesses, timeout_s, jobs=None, unwindsets=None):
             checks, stats, traces, done = parse_cbmc(out)
             raw.append(out[-3000:])
             r = {"wall_s": round(secs, 1), "cbmc": stats, "n_checks": len([c for c in checks if c["cls"] != "reachability_check"])}
-            if rc == -9:
+            if rc == -9 and secs >= tmo[h] - 1:
                 r.update(status="timeout", detail="cbmc exceeded %ds" % tmo[h])
+            elif rc == -9:
+                r.update(status="error", detail="cbmc was killed (SIGKILL after %.0fs): out of memory" % secs)
             elif not done:
                 tail = "\n".join(out.splitlines()[-15:])
                 r.update(status="error", detail="cbmc did not finish (rc=%s; out of memory?)\n%s" % (rc, tail))
@@ -231,7 +293,11 @@ def run_kani(features, harnesses, timeout_s, jobs=None, unwindsets=None):
                 r.update(witness=wit, functions=funcs)
                 if unwindf:
                     r.update(status="failure", failed=[dict(description="unwinding assertion: " + c["description"], function=c["function"],
-                                                            file=c["file"], line=c["line"], category="unwind", name=c["name"]) for c in unwindf])
+                                                            file=c["file"], line=c["line"], category="unwind", name=c["name"],
+                                                            input=traces.get(c["name"])) for c in unwindf] +
+                                                      [dict(description=c["description"], function=c["function"], file=c["file"],
+                                                            line=c["line"], category=c["cls"], name=c["name"],
+                                                            input=traces.get(c["name"])) for c in failed])
                 elif unsupported:
                     r.update(status="error", detail="reachable unsupported construct: " + "; ".join(c["description"] for c in unsupported)[:500])
                 elif failed:
@@ -252,6 +318,14 @@ def build_native(features):
     if rc != 0:
         return None, out
     return os.path.join(ws, "target", "debug", "replay"), out
+
+def native_hang(features, scenario, words, seconds=20):
+    """True if the scenario does not finish natively within `seconds` on this input."""
+    exe, out = build_native(features)
+    if exe is None:
+        return False
+    rc, out, secs = sh([exe, scenario, words, "0", "0"], timeout=seconds)
+    return rc == -9 and secs >= seconds - 1
 
 def native_replay(features, scenario, hexbytes, tries=300):
     """Run the scenario natively against the real libraries.
@@ -274,3 +348,9 @@ def scenario_len(features, scenario):
         raise RuntimeError("native build failed:\n" + "\n".join(out.splitlines()[-40:]))
     rc, out, _ = sh([exe, "--len", scenario])
     return int(out.strip().splitlines()[-1])
+
+def cleanup_run_dirs():
+    """remove this process's per-run goto binaries"""
+    import glob
+    for d in glob.glob(os.path.join(BUILD, "ws", "kani-*", "goto", "%d-*" % os.getpid())):
+        shutil.rmtree(d, ignore_errors=True)
